@@ -1680,3 +1680,93 @@ def run(idx, rep, tier):
     from .shared import share
     from .c08 import r1 as _c08r1
     share(k, 'C10.R30', 'data beyond the advertised window is a protocol error (= C08.R1): the test is against the remaining window alone, so a peer that ignores flow control cannot make a stalled application buffer without bound', _c08r1, keep=lambda key: 'window check' in key)
+    rep.rule('C10.R31', 'crypto.ec_params.lookup_ec_curve_by_params reduces '
+             'the curve coefficients modulo a prime taken from the key '
+             'file (a % p, b % p): the try around it converts '
+             'ZeroDivisionError (p = 0) and TypeError (p given as an OCTET '
+             'STRING) like the lookup failures, so import_private_key '
+             'raises KeyImportError for such a file')
+    _fec = k.func('crypto.ec_params.lookup_ec_curve_by_params')
+    _mods = [x for x in ast.walk(_fec.node) if isinstance(x, ast.BinOp) and
+             isinstance(x.op, ast.Mod)]
+    rep.floor('C10.R31', 'reductions modulo the file\'s prime', len(_mods), 1)
+    _caught = set()
+    for _t in ast.walk(_fec.node):
+        if isinstance(_t, ast.Try) and any(
+                m_ is y for st in _t.body for y in ast.walk(st)
+                for m_ in _mods):
+            for _h in _t.handlers:
+                _ts = _h.type.elts if isinstance(_h.type, ast.Tuple) else \
+                    [_h.type] if _h.type is not None else []
+                _caught |= {dotted(x) for x in _ts} if _ts else {'*'}
+    _okz = bool(_caught & {'ZeroDivisionError', 'ArithmeticError',
+                           'Exception', '*'})
+    _okt = bool(_caught & {'TypeError', 'Exception', '*'})
+    rep.check(_okz and _okt, 'C10.R31',
+              key(_fec, 'arithmetic on file values is guarded'),
+              'ZeroDivisionError and TypeError converted',
+              f'handlers catch {sorted(map(str, _caught))}: an EC private '
+              'key with explicit parameters and prime 0 makes '
+              'import_private_key raise ZeroDivisionError', _fec.loc(_fec.node))
+    rep.rule('C10.R32', 'SSHStreamSession.readuntil: whenever partial data '
+             'is reported (raise IncompleteReadError(buf, ...)), the items '
+             'it was taken from have been removed from the receive buffer '
+             'first (recv_buf[:curbuf] = [] on every path to the raise) - '
+             'otherwise a partial line followed by a break / signal / '
+             'window-change request is returned again by every '
+             'readline(), which never suspends: the handler spins on a '
+             'finite input and the event loop starves')
+    _fru = k.func('stream.SSHStreamSession.readuntil')
+    _gru = k.cfg(_fru)
+    _cons = [n.id for n in _gru.nodes if isinstance(n.ast, ast.Assign) and any(
+        isinstance(t, ast.Subscript) and dotted(t.value) == 'recv_buf' and
+        isinstance(t.slice, ast.Slice) for t in n.ast.targets)]
+    _part = [n for n in _gru.nodes if isinstance(n.ast, ast.Raise) and
+             n.ast.exc is not None and
+             'IncompleteReadError' in unparse(n.ast.exc)]
+    rep.floor('C10.R32', 'partial-data reports', len(_part), 2)
+    for _n in _part:
+        _w = _gru.path(_gru.entry, _n.id, blocked_nodes=_cons)
+        rep.check(bool(_cons) and _w is None, 'C10.R32',
+                  key(_fru, f'reported data consumed L{_n.lineno}'),
+                  'recv_buf[:curbuf] = [] before the raise',
+                  'client sends "abc", a break request, "def\\n", EOF: the '
+                  'server\'s readline() returns "abc" 200 times (the demo '
+                  'cap) while a ticker task gets 0 loop iterations',
+                  k.loc(_fru, _n), _gru.describe_path(_w) if _w else None)
+    rep.rule('C10.R33', 'argument parsers fed with peer input (subclasses '
+             'of argparse.ArgumentParser in the package, e.g. the SCP '
+             'command line of an exec request): created with '
+             'add_help=False and with error() overridden to raise - '
+             'argparse\'s own -h/--help and error handling print and call '
+             'sys.exit(), and SystemExit goes through the connection and '
+             'the event loop and ends the whole server process')
+    _np = 0
+    for _ci in k.idx.classes.values():
+        if not any((b if isinstance(b, str) else '').endswith(
+                'ArgumentParser') for b in _ci.ext_bases):
+            continue
+        _np += 1
+        _ini = _ci.methods.get('__init__')
+        _okh = False
+        if _ini is not None:
+            for _c in ast.walk(_ini.node):
+                if isinstance(_c, ast.Call) and isinstance(
+                        _c.func, ast.Attribute) and \
+                        _c.func.attr == '__init__' and is_call(
+                            _c.func.value, 'super'):
+                    _okh = any(kw.arg == 'add_help' and isinstance(
+                        kw.value, ast.Constant) and kw.value.value is False
+                        for kw in _c.keywords)
+        _err = _ci.methods.get('error')
+        _oke = _err is not None and any(
+            isinstance(x, ast.Raise) for x in ast.walk(_err.node)) and \
+            not any(is_call(x, 'exit') for x in ast.walk(_err.node))
+        rep.check(_okh and _oke, 'C10.R33',
+                  f'{_ci.qual}|parser cannot exit the process',
+                  'super().__init__(add_help=False), error() raises',
+                  'exec "scp -h" on a server with allow_scp: argparse '
+                  'prints its help and calls sys.exit(0) - the server '
+                  'process ends, all connections are dropped without '
+                  'connection_lost', f'{_ci.module.relpath}:{_ci.node.lineno}')
+    rep.floor('C10.R33', 'argument parser classes', _np, 1)
